@@ -587,6 +587,38 @@ pub fn run_c02(o: &Opts) -> Report {
             }
         }
     }
+    // placeholders: a prefix with an EMPTY name is what the enum formatter prints for `_`; it is outside the theorem's
+    // domain (names non-empty) but part of every format's vocabulary, and the library round-trips it: checked on the real code,
+    // directly before every copula / separator / bracket
+    for fm in formats() {
+        let v = vocab(fm.l);
+        let ph = fm.e.atom.prefix_placeholder.to_string();
+        let a = LTerm::new_atom("", if fm.idx == 2 { "甲" } else { "A" });
+        let hole = LTerm::new_atom(ph.clone(), "");
+        let mut xs: Vec<LTerm> = vec![];
+        for c in &v.copulas {
+            xs.push(LTerm::new_statement(c.clone(), hole.clone(), a.clone()));
+            xs.push(LTerm::new_statement(c.clone(), a.clone(), hole.clone()));
+            xs.push(LTerm::new_statement(c.clone(), LTerm::new_statement(c.clone(), hole.clone(), a.clone()), a.clone()));
+        }
+        for c in &v.connecters {
+            xs.push(LTerm::new_compound(c.clone(), vec![a.clone(), hole.clone(), a.clone()]));
+            xs.push(LTerm::new_compound(c.clone(), vec![hole.clone()]));
+        }
+        for (l, r) in &v.set_brackets {
+            xs.push(LTerm::new_set(l.clone(), vec![hole.clone(), a.clone()], r.clone()));
+        }
+        for t in xs {
+            for x in [LNarsese::Term(t.clone()), LNarsese::Sentence(LSentence { term: t.clone(), punctuation: v.punctuations[0].clone(), stamp: String::new(), truth: vec![] })] {
+                let Some(s) = cx.fmt_case(&fm, &x) else { continue };
+                let r = cx.parse_case(&fm, &s);
+                cx.rep.hist.add(format!("{}:placeholder:{}", fm.name, pr_tag(&r)));
+                if !matches!(&r, Ok(Some(w)) if *w == x) {
+                    cx.fail("placeholders", "parse(format(x)) differs from x (prefix-only atom)", format!("[{}] {:?}", fm.name, s), format!("{:?}", x), format!("{:?}", r.as_ref().ok()), None);
+                }
+            }
+        }
+    }
     let cases = std::mem::take(&mut cx.cases);
     finish(o, "C02", rep, cases)
 }
